@@ -824,3 +824,57 @@ Proof.
   - eapply Snap; [reflexivity|exact H].
   - destruct e'; try discriminate; eapply Snap; try reflexivity; exact H.
 Qed.
+
+(* ---- two more sites that can never fire ---- *)
+(* an entry without data is never refused by the uncommitted-size limit *)
+Lemma append_entry_empty_data rr e :
+  e_data e = [] -> forall r1, append_entry rr [e] <> Ok (r1, false).
+Proof.
+  intros He r1 H. unfold append_entry, maybe_increase_uncommitted_size in H.
+  destruct (r_max_uncommitted_size rr =? u64_max).
+  - cbn [negb] in H. inv_bind H. discriminate.
+  - assert (Z : data_size [e] = 0) by (unfold data_size; cbn; rewrite He; reflexivity).
+    rewrite Z in H. change (0 =? 0) with true in H. cbn [orb negb] in H. inv_bind H. discriminate.
+Qed.
+
+Theorem commit_apply_internal_never_autoleave_dropped r app skip :
+  commit_apply_internal r app skip <> Panic site_autoleave_dropped.
+Proof.
+  intros H. apply commit_apply_internal_panics_iff in H.
+  destruct H as [[_ H]|[(_ & _ & H)|(_ & l' & _ & [H|(r1 & H & _)])]].
+  - apply applied_to_sites_ok in H. vm_compute in H. intuition discriminate.
+  - discriminate H.
+  - apply append_entry_sites_ok in H. vm_compute in H. intuition discriminate.
+  - eapply append_entry_empty_data; [|exact H]. reflexivity.
+Qed.
+
+(* "site X is never returned by f": walk every path; a callee whose table does not contain
+   the site is dismissed by its table *)
+Ltac pnot_leaf :=
+  match goal with
+  | H : _ = Panic ?s |- False =>
+      let L := fresh in
+      eassert (L : In s _) by (eauto with sites nocore); vm_compute in L; intuition discriminate
+  end.
+
+Ltac pnot_step :=
+  match goal with
+  | H : Ok _ = Panic _ |- _ => discriminate H
+  | H : Panic _ = Panic _ |- False => injection H as H; vm_compute in H; discriminate H
+  | H : bind ?a ?f = Panic ?s |- False =>
+      apply bind_panic in H; destruct H as [H | (? & ? & H)]; cbv beta in H
+  | H : (match ?x with _ => _ end) = Panic ?s |- False => destruct x eqn:?; cbv beta iota in H
+  end.
+
+Ltac pnot := repeat (first [ pnot_leaf | pnot_step ]).
+
+(* vote_resp_msg_type is only called on a vote or pre-vote request *)
+Theorem step_never_vote_resp_type r m : step r m <> Panic site_vote_resp_type.
+Proof.
+  intros H. unfold step in H. cbv beta zeta in H. pnot.
+  unfold vote_resp_msg_type in H.
+  destruct (m_type m =? MsgRequestVote); [discriminate H|].
+  destruct (m_type m =? MsgRequestPreVote); [discriminate H|].
+  discriminate Heqb0.
+Qed.
+
